@@ -38,8 +38,10 @@ EXC = [RuntimeError, TypeError, IndexError, ValueError, AssertionError, ZeroDivi
        FloatingPointError, KeyError, AttributeError, OverflowError, np.linalg.LinAlgError,
        StopIteration, KeyboardInterrupt, Boom]
 KINDS = ("fun", "jac", "cb", "upd", "scaler", "ftarget", "gtol")
+# third field: logging configuration of the run (a logger with iprint=101 exercises every
+# display/frame code path around the user callables)
 BASES = (("rosen", "callable"), ("rosen", "2-point"), ("quart", "callable"),
-         ("quart", "2-point"))
+         ("quart", "2-point"), ("rosen", "callable", "verbose"))
 
 
 def base_problem(name, v):
@@ -53,7 +55,7 @@ def base_problem(name, v):
     return p.f, p.g, p.x0, p.bounds
 
 
-def run_once(name, jac, v, inject=None):
+def run_once(name, jac, v, inject=None, verbose=False):
     """inject = (kind, 1-based index, exception object)"""
     from lbfgsb import minimize_lbfgsb
     f0, g0, x0, bounds = base_problem(name, v)
@@ -91,9 +93,17 @@ def run_once(name, jac, v, inject=None):
     def gt():
         hit("gtol")
         return 1e-9
+    extra = {}
+    if verbose:
+        import logging
+        lg = logging.getLogger("lbv-c20")
+        lg.handlers[:] = [logging.NullHandler()]
+        lg.propagate = False
+        lg.setLevel(logging.DEBUG)
+        extra = dict(iprint=101, logger=lg)
     res = minimize_lbfgsb(x0=x0.copy(), fun=f, jac=(g if jac == "callable" else jac),
                           bounds=bounds, callback=cb, update_fun_def=upd, gradient_scaler=sc,
-                          ftarget=ft, gtol=gt, maxiter=4, maxcor=2)
+                          ftarget=ft, gtol=gt, maxiter=4, maxcor=2, **extra)
     return res, cnt
 
 
@@ -108,18 +118,22 @@ def digest(res):
 
 def cases(tier, variants):
     for v in variants:
-        for name, jac in BASES:
-            yield dict(part="fresh", var=v, base=name, jac=jac)
-            _, cnt = run_once(name, jac, v)
+        for bs in BASES:
+            name, jac = bs[0], bs[1]
+            vb = len(bs) > 2
+            yield dict(part="fresh", var=v, base=name, jac=jac, verbose=vb)
+            _, cnt = run_once(name, jac, v, verbose=vb)
             for kind in KINDS:
                 for i in range(1, cnt[kind] + 1):
-                    yield dict(part="fault", var=v, base=name, jac=jac, kind=kind, idx=i)
+                    yield dict(part="fault", var=v, base=name, jac=jac, kind=kind, idx=i,
+                               verbose=vb)
 
 
 def run(case):
     name, jac, v = case["base"], case["jac"], case["var"]
+    vb = bool(case.get("verbose"))
     try:
-        base, cnt = run_once(name, jac, v)
+        base, cnt = run_once(name, jac, v, verbose=vb)
     except core.CaseTimeout:
         raise
     except BaseException as e0:  # noqa: B902
@@ -130,8 +144,8 @@ def run(case):
     d0 = digest(base)
     if case["part"] == "fresh":
         code = ("import sys; sys.path.insert(0, %r); sys.path.insert(0, %r);"
-                "from lbv.props import c20; r,_=c20.run_once(%r,%r,%d); print(c20.digest(r))"
-                % (core.VERIF, core.REPO, name, jac, v))
+                "from lbv.props import c20; r,_=c20.run_once(%r,%r,%d,verbose=%r); print(c20.digest(r))"
+                % (core.VERIF, core.REPO, name, jac, v, vb))
         out = subprocess.run([sys.executable, "-B", "-c", code], capture_output=True, text=True,
                              env=dict(__import__("os").environ, LBV_REPO=core.REPO))
         got = out.stdout.strip().splitlines()[-1] if out.stdout.strip() else out.stderr[-300:]
@@ -148,7 +162,7 @@ def run(case):
         sub = dict(case, exc=E.__name__)
         nex += 1
         try:
-            run_once(name, jac, v, (kind, idx, e))
+            run_once(name, jac, v, (kind, idx, e), verbose=vb)
             viol.append(V("exception_swallowed", _case=sub, type=E.__name__))
         except core.CaseTimeout:
             raise
@@ -157,7 +171,7 @@ def run(case):
                 viol.append(V("exception_converted", _case=sub, raised=E.__name__,
                               received=type(got).__name__, text=str(got)[:200]))
         try:
-            r2, _ = run_once(name, jac, v)
+            r2, _ = run_once(name, jac, v, verbose=vb)
             if digest(r2) != d0:
                 viol.append(V("followup_run_differs_from_baseline", _case=sub))
         except core.CaseTimeout:
